@@ -117,7 +117,7 @@ def _crash_origin(tb):
         return False, "?"
     code = last.tb_frame.f_code
     fn = code.co_filename
-    return fn.startswith("/repo/"), "%s:%s" % (os.path.basename(fn), code.co_name)
+    return (fn.startswith("/repo/") or fn.startswith(os.environ.get("VERIF_REPO_SRC", "/repo/"))) and "/twisted/" in fn, "%s:%s" % (os.path.basename(fn), code.co_name)
 
 
 def _work(args):
@@ -148,7 +148,19 @@ def load_known(pid):
     if not os.path.exists(path):
         return []
     data = json.load(open(path))
-    return [f for f in data.get("findings", []) if f.get("property") == pid]
+    out = [f for f in data.get("findings", []) if f.get("property") == pid]
+    # per-property staging files (merged into known_findings.json by tools/merge_known.py)
+    kp = os.path.join(ROOT, "known", pid + ".json")
+    if os.path.exists(kp):
+        out += [f for f in json.load(open(kp)).get("findings", []) if f.get("property") == pid]
+    return out
+
+
+def split(items, n):
+    """Deal a list into n round-robin shards (lists), dropping empty ones."""
+    items = list(items)
+    out = [items[i::n] for i in range(n)]
+    return [o for o in out if o]
 
 
 def validate_evidence(path):
